@@ -306,6 +306,25 @@ structure Top where
   taxlabels : Option (List Name) := none
   data : Option Data := none
 
+/-- what the top-level loop does with a token that is not EOF / ENDOFLINE / `[`: a `BEGIN <name> ;` block is
+parsed (TAXA, DATA / CHARACTERS) or skipped, anything else is ignored; `k` continues the loop -/
+def topStep (f : Facts) (k : Seq → Top → R Top) (top : Top) (t : Tok) (r : Seq) : R Top :=
+  if t.kind == .begin then
+    let (t2, r2) := sIW r
+    let (t3, r3) := sIW r2
+    if t3.kind != .endofcommand then .error .error
+    else match t2.kind with
+      | .taxa => do
+        let (nt, ls, r') ← parseTaxa f (r3.length + 3) r3 (-1) []
+        k r' { top with taxantax := nt, taxlabels := some ls }
+      | .data => do
+        let (d, r') ← parseData f (r3.length + 3) r3 {}
+        k r' { top with data := some d }
+      | _ => do
+        let r' ← skipBlock (r3.length + 3) r3
+        k r' top
+  else k r top
+
 /-- the top-level loop of `Parse` -/
 def topLoop (f : Facts) : Nat → Seq → Top → R Top
   | 0, _, _ => .error .hang
@@ -313,26 +332,10 @@ def topLoop (f : Facts) : Nat → Seq → Top → R Top
     let (t, r) := sIW inp
     if t.kind == .eof then pure top
     else if t.kind == .endofline then topLoop f fuel r top
-    else do
-      let (t, r) ← if t.kind == .openbrack then do
-          let r' ← consumeComment f (r.length + 3) r false
-          pure (sIW r')
-        else pure (t, r)
-      if t.kind == .begin then
-        let (t2, r2) := sIW r
-        let (t3, r3) := sIW r2
-        if t3.kind != .endofcommand then .error .error
-        else match t2.kind with
-          | .taxa => do
-            let (nt, ls, r') ← parseTaxa f (r3.length + 3) r3 (-1) []
-            topLoop f fuel r' { top with taxantax := nt, taxlabels := some ls }
-          | .data => do
-            let (d, r') ← parseData f (r3.length + 3) r3 {}
-            topLoop f fuel r' { top with data := some d }
-          | _ => do
-            let r' ← skipBlock (r3.length + 3) r3
-            topLoop f fuel r' top
-      else topLoop f fuel r top
+    else if t.kind == .openbrack then do
+      let r' ← consumeComment f (r.length + 3) r false
+      topStep f (topLoop f fuel) top (sIW r').1 (sIW r').2
+    else topStep f (topLoop f fuel) top t r
 
 /-- `strings.Replace(seq, string(a), string(b), -1)` -/
 def repl (a b : Byte) (s : Seq) : Seq := s.map fun c => if c == a then b else c
